@@ -25,7 +25,9 @@ THEOREMS = ["kind_tag_table", "tag_bijection", "unknown_tag_rejected", "header_f
 RULE = ("values of all eight record kinds built from real types (chunks with 0/1/31/32/255/256/65535/65536-byte and "
         "one 4 MiB payload; scratchpads with and without signature; Vec<Transaction> of 0-4 entries with 0-3 parents and "
         "outputs; signed registers with both permission variants and 0-8 (quick) / 0-64 (thorough) ops; proofs of payment "
-        "of 0-5 quotes with msgpack-boundary metrics); malformed stream derived from the real encodings: truncation at "
+        "of 0-5 quotes with msgpack-boundary metrics); sequences of 2-7 encodings of mixed kinds on one thread with failing "
+        "encodings in between (a proof of payment whose quote is dated before the unix epoch), each output compared with the "
+        "encoding of the same value on a fresh thread and with the model; malformed stream derived from the real encodings: truncation at "
         "every offset (small records) or 40 offsets, single-bit flips, kind byte 8..255 and non-canonical integer forms of "
         "the tag (cc/cd/ce/cf/d0..d3), bin8 / map forms of the header, trailing garbage, empty/1/2-byte values, str and "
         "array-of-int encodings of a chunk; every other spelling of a header (wide tags cc/cd/ce/cf/d0/d1, bin, index- and "
@@ -274,6 +276,50 @@ def rnd_value(rng, kind, quick):
     return {"owner": rng.randrange(8), "anyone": rng.random() < 0.4, "writers": [rng.randrange(8) for _ in range(rng.randrange(4))],
             "meta": rnd_hex(rng, 32),
             "entries": [[rng.randrange(8), rnd_hex(rng, rng.choice([0, 1, 20, 200])), rng.random() < 0.6] for _ in range(nops)]}
+
+
+def gen_encseq(ctx):
+    """sequences of encodings on one thread, failing ones included: encoding must be a function of the value alone"""
+    rng, quick = ctx.rng, ctx.tier == "quick"
+    cases = []
+    for _ in range(40 if quick else 600):
+        steps = []
+        for j in range(rng.choice([2, 3, 4, 6])):
+            kind = rng.choice(KINDS)
+            v = rnd_value(rng, kind, True)
+            if isinstance(v, dict) and v.get("native"):
+                v = {"owner": 1, "enc": 3, "data": rnd_hex(rng, 20), "counter": 9, "sig": "valid"}   # deterministic bytes only
+            if isinstance(v, dict) and isinstance(v.get("data"), dict):
+                v["data"] = rnd_hex(rng, 40)
+            st = {"kind": kind, "v": v}
+            if kind.endswith("WithPayment"):
+                proof = rnd_proof(rng)
+                if rng.random() < 0.5:
+                    # a quote dated before the unix epoch cannot be serialised: the encoding fails part-way,
+                    # after the header and whatever precedes that quote have been written
+                    while not proof:
+                        proof = rnd_proof(rng)
+                    proof[rng.randrange(len(proof))]["ts"] = {"before_epoch": rng.choice([1, 3600, 10 ** 9])}
+                    st["fails"] = True
+                st["proof"] = proof
+            steps.append(st)
+        if not any(st.get("fails") for st in steps[:-1]):
+            # make sure a failure is followed by something
+            k = rng.choice(["ChunkWithPayment", "ScratchpadWithPayment", "TransactionWithPayment", "RegisterWithPayment"])
+            proof = rnd_proof(rng)
+            while not proof:
+                proof = rnd_proof(rng)
+            proof[-1]["ts"] = {"before_epoch": 5}
+            steps.insert(rng.randrange(len(steps)), {"kind": k, "v": rnd_value(rng, k, True) if not k.startswith("Chunk") else {"data": rnd_hex(rng, 33)},
+                                                      "proof": proof, "fails": True})
+            for st in steps:
+                v = st["v"]
+                if isinstance(v, dict) and v.get("native"):
+                    st["v"] = {"owner": 1, "enc": 3, "data": rnd_hex(rng, 20), "counter": 9, "sig": "valid"}
+                if isinstance(v, dict) and isinstance(v.get("data"), dict):
+                    v["data"] = rnd_hex(rng, 40)
+        cases.append({"op": "encseq", "steps": steps})
+    return cases
 
 
 def gen_records(ctx):
@@ -692,6 +738,21 @@ def oracle(c, o):
                 v.append(("wire-format", "%s bytes differ from header ++ compact msgpack of the value's serde tree" % kind))
         if not o.get("tree_same") and o["rt_ok"]:
             v.append(("roundtrip", "%s decodes to a value with a different serde tree" % kind))
+    elif c["op"] == "encseq":
+        for i, (st, r) in enumerate(zip(c["steps"], o["steps"])):
+            before = [j for j in range(i) if not o["steps"][j]["ok"]]
+            if not r["fresh_same"]:
+                v.append(("encode-history-dependent", "step %d: try_serialize_record of a %s value gives %s on this thread (after %d "
+                          "earlier calls, failed ones at %s) but %s on a fresh thread: the encoding is not a function of the value"
+                          % (i, st["kind"], (r["bytes"] or r["err"])[:40], i, before, (r.get("fresh_bytes") or "an error" if not r["fresh_ok"] else (r.get("fresh_bytes") or ""))[:40])))
+            if r["ok"]:
+                if bytes.fromhex(r["bytes"][:4]) != bytes([0x91, PINNED[st["kind"]]]):
+                    v.append(("kind-tag", "step %d: %s record starts with %s, fixed wire form 91%02x (failed encodings before it: %s)"
+                              % (i, st["kind"], r["bytes"][:4], PINNED[st["kind"]], before)))
+                if r["header"] != st["kind"]:
+                    v.append(("roundtrip-kind", "step %d: record written as %s is read as %s" % (i, st["kind"], r["header"])))
+                if r.get("tree") is not None and (bytes([0x91, PINNED[st["kind"]]]) + mp_tree(r["tree"])).hex() != r["bytes"]:
+                    v.append(("wire-format", "step %d: %s bytes differ from header ++ compact msgpack of the value's serde tree" % (i, st["kind"])))
     elif c["op"] == "msg":
         if not (o["cbor_ok"] and o["cbor_rt"]):
             v.append(("message-roundtrip", "%s %s%s does not survive the libp2p request_response::cbor codec "
@@ -799,6 +860,10 @@ def model_term(c, o):
         if not o.get("bytes") or o.get("tree") is None:
             return None
         return "agree_record %s %s %s" % (c_kind(c["kind"]), c_tree(o["tree"]), cbytes(o["bytes"]))
+    if c["op"] == "encseq":
+        terms = ["agree_record %s %s %s" % (c_kind(st["kind"]), c_tree(r["tree"]), cbytes(r["bytes"]))
+                 for st, r in zip(c["steps"], o["steps"]) if r["ok"] and r.get("tree") is not None]
+        return " && ".join(terms) if terms else None
     if c["op"] == "msg":
         if o.get("tree") is None:
             return "false"
@@ -840,6 +905,8 @@ def nontrivial(c, o):
     if c["op"] == "decode":
         val = o.get("value") or {}
         return (c["op"], c.get("family"), c["as"], o["header"], bool(val.get("ok")))
+    if c["op"] == "encseq":
+        return (c["op"], tuple((st["kind"], r["ok"]) for st, r in zip(c["steps"], o["steps"])))
     if c["op"] == "msg":
         return (c["op"], c["ty"], c["v"]["m"], c.get("family") or ("e" in (c["v"].get("r") or {})), min(o["cbor_len"].bit_length(), 14))
     if c["op"] == "msg_decode":
@@ -895,7 +962,7 @@ def run(ctx):
         robust_pipeline(ctx, "props/C12.v", ctx.corpus(), binary, oracle, model_term, IMPORTS, nontrivial=nontrivial, show=show,
                         relation=rel, shard_size=60)
         return
-    robust_pipeline(ctx, "props/C12.v", ctx.corpus() + gen_records(ctx) + gen_messages(ctx), binary, tracking_oracle, model_term,
+    robust_pipeline(ctx, "props/C12.v", ctx.corpus() + gen_records(ctx) + gen_encseq(ctx) + gen_messages(ctx), binary, tracking_oracle, model_term,
                     IMPORTS, nontrivial=nontrivial, show=show, relation=rel, shard_size=30)
     robust_pipeline(ctx, "props/C12.v", gen_malformed(ctx) + gen_structured_chunks(ctx) + gen_malformed_messages(ctx), binary,
                     oracle, model_term, IMPORTS,
